@@ -217,7 +217,8 @@ PROPS = {
                     "harness checks that every stored checksum is xxh3 of the model's stream followed by xxh3 of the model's length table; what one glob "
                     "pattern matches (mvdan/sh expansion) is an oracle",
                     "the harness's copy of the goodRun monitor is tied to the Lean definition by comparing its verdict (g=) on every step"],
-        "assumptions": ["status: commands are `test -f`, commands only write their declared files and append to a trace; no deps, "
+        "assumptions": ["status: commands are `test -f`, commands only write their declared files and append to a trace; no deps "
+                        "(except the parent / failing-sibling pair that renders a run cancelled between check and first command), "
                         "no preconditions; sub-task calls only in the form `task: helper` where the helper has one `test -f` precondition and one command "
                         "(a call that fails before anything runs, also under --dry); sources readable; explicit whole-second mtimes; every sources pattern matches "
                         "below the task directory (no `..`), so the name hashed with a file (its path relative to t.Dir) is its root-relative "
@@ -227,7 +228,8 @@ PROPS = {
                       "distinct task names, which every Taskfile has - names that merely normalise alike have distinct state files, stateKey_inj; "
                       "tasks with equal labels, or a label equal to another task's name, have distinct checksum files, sumKey_inj: the file is a "
                       "function of the pair (task name, label) -, histories of any length made of "
-                      "successful runs, runs failing in the command loop, runs cancelled at the prompt, --dry, --status, --force, list/summary "
+                      "successful runs, runs failing in the command loop, runs cancelled at the prompt, runs cancelled by a failing sibling between the "
+                      "up-to-date check and the first command (Env.cancelled; C04_sibling_cancelled_no_entry), --dry, --status, --force, list/summary "
                       "queries and arbitrary file edits: skip implies goodRun), C04_partial_timestamp_general (the same histories for ANY "
                       "method-timestamp task, distinct task names, non-decreasing clock: skip implies goodRun or a generates file newer than the "
                       "marker vouched; C04_partial_timestamp: plain goodRun without positive generates pattern), C04_prompt_declined_no_entry / "
